@@ -678,6 +678,7 @@ def run_variant(trace, res, with_observers, tag, stepbase=0, checks=True):
                     except Exception:
                         if checks:
                             res.probe("serialisation_failed_half_way")
+                            res.faults["serialisation_aborted_by_unrenderable_value"] += 1
                 comp.pop("X-POISON", None)
             elif op == "mutate_parsed":
                 comp = B.objs.get(a["comp"])
